@@ -12,6 +12,7 @@ func TestVerifReplay(t *testing.T) {
 		"VerifC04Thorough":         VerifC04Thorough,
 		"VerifC04Truncate":         VerifC04Truncate,
 		"VerifC04Refused":          VerifC04Refused,
+		"VerifC04TruncateThenAny":  VerifC04TruncateThenAny,
 		"VerifC04Refused3":         VerifC04Refused3,
 		"VerifC04RefusedElsewhere": VerifC04RefusedElsewhere,
 		"VerifC04TruncateTwice":    VerifC04TruncateTwice,
